@@ -43,6 +43,67 @@ Theorem C25_get_marks_eq_pointwise_unit : forall its i,
   get_marks its i = without_unmarks (marks_at_pos its (N.of_nat i)).
 Proof. exact get_marks_eq_pointwise_unit. Qed.
 
+(* the known finding: read as a TEXT index (the unit of marks(), spans(), mark(), splice_text) get_marks
+   disagrees with the other readers as soon as a character is wider than one unit *)
+Theorem C25_get_marks_text_index_refuted :
+  exists (e : enc) (ops : list op) (obj : opid) (i : nat),
+    let its := text_view e ops obj in
+    marks its = [(2, 3, [98; 111; 108; 100], SBool true)] /\
+    get_marks its i <> without_unmarks (marks_at_pos its (N.of_nat i)).
+Proof. exact get_marks_text_index_refuted. Qed.
+
+(* marks() — the mirror of calculate_marks_slow and MarkAccumulator (run grouping, merging of adjacent
+   equal ranges, null ranges dropped): a text position lies in a reported range of name n with value v
+   exactly when the pointwise marking gives n the non-null value v there *)
+Theorem C25_marks_eq_pointwise : forall its p n v,
+  (exists s e, In (s, e, n, v) (marks its) /\ s <= p < e) <->
+  In (n, v) (without_unmarks (marks_at_pos its p)).
+Proof. exact marks_eq_pointwise. Qed.
+
+(* spans(): every code point of every span carries the span's mark set = the reported (non-null) set of
+   its character; and the spans concatenate to the text *)
+Theorem C25_spans_marks_eq_pointwise : forall its,
+  Forall (fun e => 0 < p_w e) (marking its []) ->
+  expand_spans (spans its) = pointwise_chars (marking its []).
+Proof. exact spans_marks_eq_pointwise. Qed.
+
+Theorem C25_spans_concat_text : forall its,
+  Forall (fun e => 0 < p_w e) (marking its []) ->
+  flat_map fst (spans its) = flat_map p_txt (marking its []).
+Proof. exact spans_concat_text. Qed.
+
+(* expand (partial: ONE mark over plain text — visible characters of positive width, no tombstones, no
+   other mark; stated on the element sequence, where the new element lands right after the reference the
+   insert query picks because it carries the greatest id, cf. Interp.place).  A character inserted by the
+   model's insert rule (InsertQuery) exactly at the start boundary is reported as marked iff the mark
+   expands before ... *)
+Theorem C25_expand_single_mark_start_partial : forall pre b xb n v c w s rest q wq sq,
+  Forall pos_char pre -> 0 < w ->
+  NoDup (map item_id (pre ++ [IBegin b xb n v])) -> ~ In head_id (map item_id (pre ++ [IBegin b xb n v])) ->
+  let its := pre ++ IBegin b xb n v :: IChar c true w s :: rest in
+  exists r, anchor (cw_sum pre) its = Some (r, cw_sum pre) /\
+    exists l1 l2, place_item r (IChar q true wq sq) its = l1 ++ IChar q true wq sq :: l2 /\
+                  current (final_open l1) = if xb then [(n, v)] else [].
+Proof. exact expand_single_mark_start. Qed.
+
+(* ... and exactly at the end boundary iff the mark expands after *)
+Theorem C25_expand_single_mark_end_partial : forall pre b xb n v mid e xe post q wq sq,
+  Forall pos_char pre -> Forall pos_char mid -> mid <> [] -> opid_prev e = b ->
+  (post = [] \/ exists c w s t, post = IChar c true w s :: t) ->
+  NoDup (map item_id (pre ++ IBegin b xb n v :: mid ++ [IEnd e xe])) ->
+  ~ In head_id (map item_id (pre ++ IBegin b xb n v :: mid ++ [IEnd e xe])) ->
+  let its := pre ++ IBegin b xb n v :: mid ++ IEnd e xe :: post in
+  exists r, anchor (cw_sum pre + cw_sum mid) its = Some (r, cw_sum pre + cw_sum mid) /\
+    exists l1 l2, place_item r (IChar q true wq sq) its = l1 ++ IChar q true wq sq :: l2 /\
+                  current (final_open l1) = if xe then [(n, v)] else [].
+Proof. exact expand_single_mark_end. Qed.
+
+(* the set reported for a character is [current] of the marks open in front of it *)
+Theorem C25_marking_at_char : forall l1 st id w s l2,
+  marking (l1 ++ IChar id true w s :: l2) st =
+  marking l1 st ++ mkP id w s (current (fold_left step_open l1 st)) :: marking l2 (fold_left step_open l1 st).
+Proof. exact marking_app. Qed.
+
 (* convergence: every reader is a function of the SET of operations *)
 Theorem C25_marks_converge : forall e obj ops1 ops2,
   NoDup (map op_id ops1) -> Permutation ops1 ops2 ->
@@ -85,3 +146,31 @@ Proof.
   - vm_compute. repeat constructor; cbn; intuition discriminate.
   - vm_compute. repeat constructor; cbn; intuition discriminate.
 Qed.
+
+(* non-vacuity of the expand theorems on operations: "abc", mark [1,2) by the model's [mark_text], then a
+   character spliced in at the start (1) / end (2) boundary by the model's [splice_text_m] *)
+Definition ex_text0 : list op :=
+  [ mkOp (1, ex_a1) root_id (KMap [116]) false (AMake OText) [];
+    mkOp (2, ex_a1) ex_t (KSeq head_id) true (APut (SStr [97])) [];
+    mkOp (3, ex_a1) ex_t (KSeq (2, ex_a1)) true (APut (SStr [98])) [];
+    mkOp (4, ex_a1) ex_t (KSeq (3, ex_a1)) true (APut (SStr [99])) [] ].
+Definition ex_run (x : expand_mode) (at_ : N) : list mark :=
+  let t1 := fst (mark_text EncCP (begin_tx ex_text0 ex_a1) ex_t 1 2 ex_bold (SBool true) x) in
+  match splice_text_m EncCP t1 ex_t at_ 0 [81] with
+  | EOk t2 => marks (text_view EncCP (tx_all t2) ex_t)
+  | _ => []
+  end.
+
+Example C25_expand_nonvacuous :
+  ex_run XBoth 1 = [(1, 3, ex_bold, SBool true)] /\ ex_run XBoth 2 = [(1, 3, ex_bold, SBool true)] /\
+  ex_run XNone 1 = [(2, 3, ex_bold, SBool true)] /\ ex_run XNone 2 = [(1, 2, ex_bold, SBool true)] /\
+  ex_run XBefore 1 = [(1, 3, ex_bold, SBool true)] /\ ex_run XBefore 2 = [(1, 2, ex_bold, SBool true)] /\
+  ex_run XAfter 1 = [(2, 3, ex_bold, SBool true)] /\ ex_run XAfter 2 = [(1, 3, ex_bold, SBool true)].
+Proof. repeat split; vm_compute; reflexivity. Qed.
+
+Example C25_expand_items_nonvacuous :
+  let its := text_view EncCP (tx_all (fst (mark_text EncCP (begin_tx ex_text0 ex_a1) ex_t 1 2 ex_bold (SBool true) XBefore))) ex_t in
+  its = [IChar (2, ex_a1) true 1 [97]; IBegin (5, ex_a1) true ex_bold (SBool true); IChar (3, ex_a1) true 1 [98];
+         IEnd (6, ex_a1) false; IChar (4, ex_a1) true 1 [99]] /\
+  anchor 1 its = Some ((5, ex_a1), 1) /\ anchor 2 its = Some ((6, ex_a1), 2).
+Proof. repeat split; vm_compute; reflexivity. Qed.
